@@ -1821,6 +1821,35 @@ func translate(info *types.Info, funcs, methods map[string]*ast.FuncDecl, fd *as
 	return nil
 }
 
+func isDecoderSignature(info *types.Info, fd *ast.FuncDecl) bool {
+	if fd.Type.Params.NumFields() != 1 || fd.Type.Results == nil || fd.Type.Results.NumFields() != 2 {
+		return false
+	}
+	pt := info.TypeOf(fd.Type.Params.List[0].Type)
+	sl, ok := pt.Underlying().(*types.Slice)
+	if !ok {
+		return false
+	}
+	if b, ok := sl.Elem().Underlying().(*types.Basic); !ok || b.Kind() != types.Uint8 {
+		return false
+	}
+	var res []types.Type
+	for _, r := range fd.Type.Results.List {
+		n := len(r.Names)
+		if n == 0 {
+			n = 1
+		}
+		for i := 0; i < n; i++ {
+			res = append(res, info.TypeOf(r.Type))
+		}
+	}
+	if len(res) != 2 || !isErrorType(res[1]) {
+		return false
+	}
+	_, isStruct := res[0].Underlying().(*types.Struct)
+	return isStruct
+}
+
 func main() {
 	if len(os.Args) < 3 {
 		fmt.Fprintln(os.Stderr, "usage: ble2lean <repo>/bleparser <out.lean>")
@@ -1864,7 +1893,9 @@ func main() {
 			}
 			if fd.Recv == nil {
 				funcs[fd.Name.Name] = fd
-				if strings.HasPrefix(fd.Name.Name, "Decode") {
+				// a record decoder: func DecodeX(inp []byte) (XRecord, error); other functions that merely start with
+				// "Decode" (a dispatcher over record types, say) are not decoders of a record layout
+				if strings.HasPrefix(fd.Name.Name, "Decode") && isDecoderSignature(info, fd) {
 					decoders = append(decoders, fd)
 				}
 				continue
